@@ -35,6 +35,35 @@ class Boom(Exception):
     """Injected callback failure."""
 
 
+# the same failure as the exception types a library might catch for its own purposes: a callback's KeyError,
+# ZeroDivisionError, AttributeError ... must propagate like any other exception
+class BoomKeyError(Boom, KeyError):
+    pass
+
+
+class BoomZeroDivision(Boom, ZeroDivisionError):
+    pass
+
+
+class BoomAttributeError(Boom, AttributeError):
+    pass
+
+
+class BoomTypeError(Boom, TypeError):
+    pass
+
+
+class BoomValueError(Boom, ValueError):
+    pass
+
+
+class BoomIndexError(Boom, IndexError):
+    pass
+
+
+BOOMS = [Boom, BoomKeyError, BoomZeroDivision, BoomAttributeError, BoomTypeError, BoomValueError, BoomIndexError]
+
+
 _PY = ["random", "randrange", "randint", "choice", "choices", "shuffle", "sample", "uniform", "gauss",
        "normalvariate", "getrandbits", "seed", "setstate"]
 _NP = ["permutation", "shuffle", "choice", "randint", "normal", "random", "rand", "uniform", "random_sample",
